@@ -50,7 +50,8 @@ class Model(HoloPyObject):
                  constraints=[]):
         self._dummy_scatterer = self._create_dummy_scatterer(scatterer)
         self.theory = interpret_theory(self._dummy_scatterer, theory)
-        self.constraints = ensure_listlike(constraints)
+        # (a list of its own: the default [] is one object for all models)
+        self.constraints = list(ensure_listlike(constraints))
         if not (np.isscalar(noise_sd)
                 or isinstance(noise_sd, (prior.Prior, dict))):
             noise_sd = ensure_array(noise_sd)
